@@ -15,3 +15,10 @@ pub use self::core::*;
 pub use self::error::*;
 pub use self::expr::types::*;
 pub use self::parser::*;
+
+/// Verification hooks: exposes the input views (`StringView`, row/col table)
+/// so that an external harness can drive tokenizers and position lookups directly.
+#[cfg(feature = "verif")]
+pub mod verif {
+    pub use crate::input::*;
+}
